@@ -4,6 +4,7 @@
   `Impl` transcribes /repo/ledger (three caches per overlay); `Spec` is the overlay map.
 -/
 import RigoProofs.Ledger
+import RigoProofs.LedBridgeEnc
 open Std
 
 namespace Rigo.Ledger.C18
@@ -136,5 +137,36 @@ example :
       .commit, .readAt 1 1, .readAt 2 1, .get 2]).2 =
     [.unit, .ver 1, .val (some 10), .unit, .val (some 11), .unit, .val none,
       .ver 2, .val (some 10), .val (some 11), .val none] := by decide
+
+
+/-! ### (6) bridge to the application model
+
+The application model (Rigo/App.lean, Block.lean) does not use `Spec` but the simpler `Led α` of Rigo/Types.lean
+(committed history + a consensus VIEW + a mempool VIEW).  `RigoProofs/LedBridge*.lean` proves that `Led` is a correct
+abstraction of `Spec` — and hence, with `ledger_refines`, of the three-cache implementation — on every cancel-free
+operation sequence (`LedBridge.sim_step`: from ANY `Spec` state, output and abstracted successor state agree; the four
+`cancel*` operations are provably not expressible on views: `LedBridge.cancelSet_not_abstractable`,
+`cancelDel_not_abstractable`; the application model never issues them). -/
+
+/-- On every cancel-free operation sequence the three-cache implementation returns exactly what the `Led` abstraction
+    returns (Nat keys, iteration included). -/
+theorem impl_refines_led (ops : List Op) (h : LedBridge.CancelFree ops) :
+    (({} : Impl).run ops).2 =
+      (({} : LedBridge.LedN).run (ops.filterMap LedBridge.Op.toL?)).2.map LedBridge.LOut.toOut :=
+  LedBridge.impl_refines_led' ops h
+
+/-- … and for `Rigo.Led α` itself (String keys) through any injective key encoding (iteration order excluded: an
+    encoding need not preserve the key order). -/
+theorem impl_refines_Led {α : Type} (ek : String → Key) (hek : Function.Injective ek) (ev : α → Val)
+    (lops : List (LedBridge.LOp String α)) (hi : LedBridge.NoIter lops) :
+    (({} : Impl).run (LedBridge.encodeOps ek ev lops)).2 =
+      LedBridge.encodeOuts ek ev (LedBridge.Led.run ({} : Led α) lops).2 :=
+  LedBridge.impl_refines_Led ek hek ev lops hi
+
+/-- the cancel operations cannot be simulated on views: two reachable `Spec` states with equal views differ after one -/
+theorem cancel_not_abstractable :
+    (∃ s₁ s₂ : Spec, LedBridge.absLed s₁ = LedBridge.absLed s₂ ∧ LedBridge.absLed (s₁.cancelSet 1) ≠ LedBridge.absLed (s₂.cancelSet 1)) ∧
+    (∃ s₁ s₂ : Spec, LedBridge.absLed s₁ = LedBridge.absLed s₂ ∧ LedBridge.absLed (s₁.cancelDel 1) ≠ LedBridge.absLed (s₂.cancelDel 1)) :=
+  ⟨LedBridge.cancelSet_not_abstractable, LedBridge.cancelDel_not_abstractable⟩
 
 end Rigo.Ledger.C18
